@@ -1,5 +1,6 @@
 import Flodym.Array
 import Flodym.Build
+import FlodymGen.IOSites
 /-!
 # Tier 5 — tables: `to_df` and the `DataFrameToFlodymDataConverter` pipeline (`from_df`,
 `set_values_from_df`)
@@ -68,7 +69,7 @@ def sameItems (arr : List Cell) (d : Dim) : Bool :=
     | none => false
     | some a =>
       -- a float that changes under the conversion (2000.7 → 2000) is not an item (D26 repair)
-      if (List.zip arr a).any (fun p => match p.1, p.2 with
+      if Gen.sameItemsRejectsFractions && (List.zip arr a).any (fun p => match p.1, p.2 with
           | .num q true, .num q' _ => q != q'
           | _, _ => false) then false
       else setEq a (d.items.map Cell.ofItem)
@@ -164,7 +165,7 @@ def firstRowItems? (dims : DimSet) (c : Conv) : Option Conv :=
   match c.df.cols with
   | [] => none
   | columnName :: _ =>
-    if isDimCol c.dimCols columnName then some c else
+    if Gen.firstRowGuard && isDimCol c.dimCols columnName then some c else
     match c.df.colIdx? columnName with
     | none => none
     | some j =>
@@ -176,19 +177,24 @@ def firstRowItems? (dims : DimSet) (c : Conv) : Option Conv :=
                                 rows := c.df.cols :: c.df.rows } }
         else some c) c
 
-/-- `_check_if_dim_column_by_items` for one column (skipping identified dimensions: D20 repair) -/
-def byItemsOne? (dims : DimSet) (c : Conv) (cn : Cell) : Option Conv :=
-  if isDimCol c.dimCols cn then some c else
+/-- `_check_if_dim_column_by_items` for one column (skipping identified dimensions: D20 repair);
+the flag says whether the column was taken for a dimension (or already was one) -/
+def byItemsOne? (dims : DimSet) (c : Conv) (cn : Cell) : Option (Conv × Bool) :=
+  if isDimCol c.dimCols cn then some (c, true) else
   match c.df.colIdx? cn with
   | none => none
   | some j =>
     let items := unique (c.df.column j)
-    match dims.find? (fun d => !(c.dimCols.contains d.name) && sameItems items d) with
-    | some d => some { df := c.df.rename cn (.str d.name), dimCols := c.dimCols ++ [d.name] }
-    | none => some c                -- a value column: keep looking (D16 repair)
+    match dims.find? (fun d => !(Gen.byItemsSkipsIdentified && c.dimCols.contains d.name) && sameItems items d) with
+    | some d => some ({ df := c.df.rename cn (.str d.name), dimCols := c.dimCols ++ [d.name] }, true)
+    | none => some (c, false)         -- a value column
 
-/-- `_check_for_dim_columns_by_items`: over the column labels as they were when the loop started -/
-def byItems? (dims : DimSet) (c : Conv) : Option Conv := c.df.cols.foldlM (byItemsOne? dims) c
+/-- `_check_for_dim_columns_by_items`: over the column labels as they were when the loop started;
+after a value column the loop goes on (D16 repair) — or, on a tree without the repair, stops -/
+def byItems? (dims : DimSet) (c : Conv) : Option Conv :=
+  (c.df.cols.foldlM (fun (st : Conv × Bool) cn =>
+      if st.2 then some st else
+      (byItemsOne? dims st.1 cn).map fun r => (r.1, !r.2 && !Gen.byItemsContinues)) (c, false)).map (·.1)
 
 inductive Format where
   | long (valueCol : Cell)
